@@ -19,7 +19,7 @@ pub static DEF: PropertyDef = PropertyDef {
            external-function call; a host assignment notifies each registered observer exactly once, immediately, with the assigned value; removals never panic. \
            Non-trivial = at least one registered observer was notified of a committed change; distinct = hash of program+history.",
     assumptions: &["notifications produced inside reset_state / load_state themselves are not constrained"],
-    runs_quick: 3000,
+    runs_quick: 10000,
     runs_thorough: 200000,
     exhaustive_note: "none (sampled programs and histories)",
     generate,
